@@ -110,6 +110,13 @@ impl TvfsBuilder {
         // *range* of cft_table_size (1/2/3/4 byte threshold).
         let mut header = TvfsHeader::new(self.flags);
 
+        // The EST size must be known before the CFT is laid out: the width of
+        // the per-entry EST field (`est_offs_size`) is derived from it.
+        if (self.flags & TVFS_FLAG_ENCODING_SPEC) != 0 && !self.est_specs.is_empty() {
+            let est_size: usize = self.est_specs.iter().map(|s| s.len() + 1).sum();
+            header.est_table_size = Some(est_size as u32);
+        }
+
         // Build CFT entries and data
         let cft_entries: Vec<ContainerEntry> = self
             .files
